@@ -167,6 +167,24 @@ def stream_search(ctx):
     from sampler_stubs import run_real
     import sampler_corr
     bad = 0
+    # every supported generator type (with and without `jumped`, and the legacy interface): chain k's stream does not depend on how many chains run
+    for bitgen in ("PCG64", "PCG64DXSM", "Philox", "MT19937", "SFC64"):
+        seed = int(ctx.rng.integers(0, 2 ** 31))
+        inits = [int(x) for x in ctx.rng.integers(0, 1000, size=3)]
+        runs = {n: run_real(seed, inits[:n], (3, 4), 0, 5, None, False, True, False, bitgen=bitgen) for n in (1, 2, 3)}
+        ctx.case(("stream-count", bitgen))
+        ctx.count("search:stream_vs_chain_count")
+        for n in (2, 3):
+            for c in range(min(n, 2)):
+                if c < 1 and (runs[1]["traces"][0] != runs[n]["traces"][0] or runs[1]["stats"][0] != runs[n]["stats"][0]):
+                    bad += 1
+                    ctx.fail(f"stream_depends_on_chain_count:{bitgen}", f"{bitgen}: chain 0 of a 1-chain run differs from chain 0 of a {n}-chain run with the same seed {seed} "
+                             f"(stub transition, states given completely)", {"bitgen": bitgen, "seed": seed, "n_chain": n})
+                    break
+            if runs[2]["traces"][1] != runs[3]["traces"][1]:
+                bad += 1
+                ctx.fail(f"stream_depends_on_chain_count:{bitgen}", f"{bitgen}: chain 1 of a 2-chain run differs from chain 1 of a 3-chain run (seed {seed})", {"bitgen": bitgen, "seed": seed})
+                break
     for n_process in (1, 2):
         for trial in range(3):
             seed = int(ctx.rng.integers(0, 2 ** 31))
